@@ -152,6 +152,18 @@ def do_replay(ctx, exe):
         print("known-finding consequence: %s %s" % (k, t))
     for k, t in vio:
         ctx.violation("%s: %s" % (k, t), {"line": line, "kind": k})
+    if str(d.get("replay", {}).get("how", "")).startswith("TSAN_OPTIONS"):
+        import subprocess
+        ts = common.build_harness("sched", ["conc/sched.c"], variant="tsan")
+        p = subprocess.run([ts, "line", line], stdout=subprocess.PIPE, stderr=subprocess.PIPE, universal_newlines=True,
+                           env=dict(os.environ, TSAN_OPTIONS="halt_on_error=0 exitcode=0"))
+        for rep in L.parse_tsan(p.stderr):
+            k = L.tsan_known(rep)
+            print("ThreadSanitizer: %s; %s; %s -> %s" % (rep["summary"], rep["location"], rep["tops"], k or "NOT a listed race"))
+            if not k:
+                print(rep["text"])
+                ctx.violation("accesses not ordered by the cache lock (ThreadSanitizer): %s; location %s" % (rep["summary"], rep["location"]),
+                              {"line": line, "how": d["replay"]["how"]})
 
 
 def run(ctx):
